@@ -1,0 +1,11 @@
+//go:build verif
+
+package bridgeservice
+
+import "net/http"
+
+// VerifC12Handler returns the service's real gin router (routes registered by New) so that requests can be
+// served through net/http/httptest without opening a socket.
+func VerifC12Handler(b *BridgeService) http.Handler {
+	return b.router
+}
